@@ -816,6 +816,18 @@ class SymInt:
     def __invert__(self):
         return SymInt(-self.z - 1)
 
+    def to_bytes(self, length=1, byteorder="big", *, signed=False):
+        from .symbytes import mk_bytes
+
+        if signed:
+            raise Inconclusive("signed to_bytes of a symbolic int")
+        if self < 0 or self >= (1 << (8 * length)):
+            raise OverflowError("int too big to convert")
+        items = [(self // (256**k)) % 256 for k in range(length - 1, -1, -1)]
+        if byteorder == "little":
+            items.reverse()
+        return mk_bytes(items)
+
     def _bv(self, o, f):
         self._nonneg()
         o._nonneg()
